@@ -33,11 +33,22 @@ class Adapter(EnvAdapter):
                 _c("n5_p50", 5, 0.5, 18, policies=POL),
                 _c("n5_p10", 5, 0.1, 12, policies=POL),
                 _c("n3_p80", 3, 0.8, 18, policies=POL),
+                # (almost always) the complete graph / no edges at all: every colour is needed / always legal
+                _c("n4_p98", 4, 0.98, 6, policies=POL, props=[q for q in self.props if q != "C10"]),
+                _c("n4_p2", 4, 0.02, 4, policies=POL, props=[q for q in self.props if q != "C10"]),
             ]
         out = [_c("n20_p80_default", 20, 0.8, 24, default=True, policies=POL)]
         for n, eps in ((3, 120), (5, 90), (8, 60), (20, 18)):
             for p in (0.1, 0.5, 0.8):
                 out.append(_c(f"n{n}_p{int(round(p * 100))}", n, p, eps, policies=POL))
+        # edge cases: no edges at all, the complete graph, one or two nodes, more nodes than an int8 could index
+        # (the generator requires 0 < edge_probability < 1)
+        # (the generator requires 0 < edge_probability < 1; with probabilities this extreme the sampled graphs are nearly
+        # always the same one, so C10's "depends on the key" is not asked of these configurations)
+        no10 = [q for q in self.props if q != "C10"]
+        out += [_c("n6_p2", 6, 0.02, 12, policies=POL, props=no10), _c("n6_p98", 6, 0.98, 12, policies=POL, props=no10),
+                _c("n1_p50", 1, 0.5, 6, policies=POL, props=no10),                                   # the only graph on one node
+                _c("n2_p98", 2, 0.98, 8, policies=POL, props=no10), _c("n30_p30", 30, 0.3, 4, probe_every=3, policies=POL)]
         return out
 
     # ---- the real environment -------------------------------------------------------------
